@@ -214,14 +214,13 @@ def collect(tier, sd, out, want_hist=True):
     out.notes["dedicated_cases"] = len(cases)
     behs = []
     if want_hist:
-        consts = dict(atomsops.TIERS[tier]["C11" if tier == "quick" else "C09"])
+        consts = dict(atomsops.TIERS["quick"]["C11"])
         consts["InitCells"] = '{"none", "tri"}'
         if tier == "thorough":
-            consts["MaxDepth"] = 2
-        behs, _ = atomsops.gen_behaviours(consts, ["Extend", "Delete", "Pop", "ExtendShifted", "Replicate", "Construct"], 3000)
-        if tier == "quick":
-            random.Random(sd).shuffle(behs)
-            behs = behs[:2500]
+            consts.update(InitFrags=atomsops.ALLF, ExtFrags='{"F1p", "F2p", "F3p", "F3e", "F3q", "F2b", "F4b", "F2y"}', MaxDel=2)
+        behs, _ = atomsops.gen_behaviours(consts, ["Extend", "Delete", "Pop", "ExtendShifted", "Construct"], 3000)
+        random.Random(sd).shuffle(behs)
+        behs = behs[:2500] if tier == "quick" else behs[:30000]
         bidx = list(enumerate(behs))
         tasks = [(bidx[k::14], sd) for k in range(14)]
         with multiprocessing.get_context("fork").Pool(14) as pool:
